@@ -45,7 +45,9 @@ class CombinedDataHandler:
         # this is necessary if we are worried that there is no zero state for units (ie. some precinct states)
         elif handle_unreporting == "zero":
             indices_with_null_val = data[result_cols].isna().any(axis=1)
-            data.update(data[result_cols].fillna(value=0))
+            # zero everything that comes from the live results (e.g. also results_weights), not just the estimands
+            live_result_cols = [col for col in data.columns if col.startswith("results_")]
+            data.update(data[live_result_cols].fillna(value=0))
             data.loc[indices_with_null_val, "percent_expected_vote"] = 0
 
         self.n_minimum_for_outlier_detection_model = 20
